@@ -393,6 +393,70 @@ func oracleC03(qi int) func(x *schedX) {
 	}
 }
 
+// oracleC05: the inputs of melt mi (payment in flight when the race starts, backend outcome known by then) are usable
+// nowhere else if the payment succeeded, and at most once if it failed; after the race and one more truthful poll the
+// quote and the inputs have followed the outcome.
+func oracleC05(mi int, ins []int, outcome lnmodel.Answer) func(x *schedX) {
+	return func(x *schedX) {
+		w := x.w
+		m := w.Melts[mi]
+		res, err := w.M.M.GetMeltQuoteState(context.Background(), m.Q.Id)
+		quote := "error"
+		if err == nil {
+			quote = res.State.String()
+		}
+		var ys []string
+		for _, n := range ins {
+			ys = append(ys, w.Proofs[n].Y)
+		}
+		states := "error"
+		if st, err := w.M.M.ProofsStateCheck(ys); err == nil {
+			var names []string
+			for _, s := range st {
+				names = append(names, s.State.String())
+			}
+			states = strings.Join(names, ",")
+		}
+		elsewhere := 0
+		for _, n := range ins {
+			elsewhere += x.swapOK[n]
+			for _, other := range x.meltOf[n] {
+				if other != mi && w.LN.Payments[w.Melts[other].Hash] != nil {
+					elsewhere++ // a payment was attempted for another quote with this input
+				}
+			}
+		}
+		x.note("final mq%d=%s inputs=%s accepted-elsewhere=%d", mi, quote, states, elsewhere)
+		all := func(want string) bool {
+			for _, f := range strings.Split(states, ",") {
+				if f != want {
+					return false
+				}
+			}
+			return true
+		}
+		if outcome == lnmodel.Succeeded {
+			if elsewhere > 0 {
+				x.viol("C05,C01", x.scn+"/input-of-paid-melt-accepted-elsewhere", "the payment of mq%d succeeded, yet its inputs %v were accepted by %d other operation(s): %s", mi, ins, elsewhere, strings.Join(x.obs, "; "))
+			}
+			if quote != "PAID" || !all("SPENT") || (err == nil && res.Preimage != w.LN.Invoices[m.Hash].Preimage) {
+				x.viol("C05", x.scn+"/after-success/quote="+quote+"/inputs="+states, "the payment of mq%d succeeded; after the race and a further poll the quote is %s (preimage %q), inputs %s: %s", mi, quote, res.Preimage, states, strings.Join(x.obs, "; "))
+			}
+			return
+		}
+		if elsewhere > len(ins) {
+			x.viol("C05,C01", x.scn+"/released-input-accepted-twice", "inputs %v of the failed mq%d were accepted %d times: %s", ins, mi, elsewhere, strings.Join(x.obs, "; "))
+		}
+		want := "UNSPENT"
+		if elsewhere > 0 {
+			want = "SPENT"
+		}
+		if quote != "UNPAID" || !all(want) {
+			x.viol("C05", x.scn+"/after-failure/quote="+quote+"/inputs="+states, "the payment of mq%d failed; after the race and a further poll the quote is %s, inputs %s (accepted elsewhere %d times): %s", mi, quote, states, elsewhere, strings.Join(x.obs, "; "))
+		}
+	}
+}
+
 func tailMint(qi int) func(x *schedX) {
 	return func(x *schedX) {
 		w := x.w
@@ -494,6 +558,39 @@ func init() {
 		x.thSwap("A", []int{0, 1}, "")
 		x.thMelt("B", 0, []int{1, 2})
 	}, oracle: oracleC01([]int{0, 1, 2})})
+
+	// ---------- C05: resolution of an in-flight melt racing another use of its inputs ----------
+	pendingMelt := func(x *schedX, outcome lnmodel.Answer) {
+		must(x.w, "fund|8,8", "meltq|4", "meltq|4", "melt|0|0|P")
+		x.w.LN.Payments[x.w.Melts[0].Hash].Status = outcome // the backend now knows the outcome
+	}
+	addScn(&schedScn{name: "L1-success-poll-vs-swap", prop: "C05", setup: func(x *schedX) {
+		pendingMelt(x, lnmodel.Succeeded)
+		x.thPollMelt("A", 0)
+		x.thSwap("B", []int{0}, "")
+	}, oracle: oracleC05(0, []int{0}, lnmodel.Succeeded)})
+	addScn(&schedScn{name: "L2-success-check-vs-swap", prop: "C05", setup: func(x *schedX) {
+		pendingMelt(x, lnmodel.Succeeded)
+		x.thCheck("A", []int{0}, 1)
+		x.thSwap("B", []int{0}, "")
+	}, oracle: oracleC05(0, []int{0}, lnmodel.Succeeded)})
+	addScn(&schedScn{name: "L3-success-poll-vs-melt", prop: "C05", setup: func(x *schedX) {
+		pendingMelt(x, lnmodel.Succeeded)
+		x.thPollMelt("A", 0)
+		x.thMelt("B", 1, []int{0})
+	}, oracle: oracleC05(0, []int{0}, lnmodel.Succeeded)})
+	addScn(&schedScn{name: "L4-failure-poll-vs-swap-swap", prop: "C05", setup: func(x *schedX) {
+		pendingMelt(x, lnmodel.Failed)
+		x.thPollMelt("A", 0)
+		x.thSwap("B", []int{0}, "")
+		x.thSwap("C", []int{0}, "")
+	}, oracle: oracleC05(0, []int{0}, lnmodel.Failed)})
+	addScn(&schedScn{name: "L5-success-poll-vs-check-vs-swap", prop: "C05", setup: func(x *schedX) {
+		pendingMelt(x, lnmodel.Succeeded)
+		x.thPollMelt("A", 0)
+		x.thCheck("B", []int{0}, 1)
+		x.thSwap("C", []int{0}, "")
+	}, oracle: oracleC05(0, []int{0}, lnmodel.Succeeded)})
 
 	// ---------- C03 ----------
 	paid := func(x *schedX, locked bool) {
